@@ -221,6 +221,20 @@ def c08_oracle(chk, c, a):
         chk.violation('no spline exposed after evaluate', c.describe()); return
     Ts = fv(a['times'])
     q = fv(a['wps']); wps = [q[r * d:(r + 1) * d] for r in range(n + 1)]
+    # "decoded": the durations / waypoints the exposed spline was built from must be the maps applied to the decision vector
+    ex_T, ex_W, _ = ol.decode_exact(c, c.x)
+    for i_, (got, want) in enumerate(zip(Ts, ex_T)):
+        if isinstance(got, float) or abs(got - want) > 1e-12 * max(Fr(1), abs(want)):
+            chk.violation('the duration the evaluation used is not the time map applied to the decision variable', c.describe(),
+                          {'segment': i_, 'used': float(got) if not isinstance(got, float) else str(got), 'toTime(x)': float(want)})
+            return
+    for r_ in range(n + 1):
+        for j_ in range(d):
+            got, want = wps[r_][j_], ex_W[r_][j_]
+            if isinstance(got, float) or abs(got - want) > 1e-12 * max(Fr(1), abs(want)):
+                chk.violation('the waypoint the evaluation used is not the spatial map applied to the decision variables (or the reference)',
+                              c.describe(), {'point': r_, 'dim': j_, 'used': float(got) if not isinstance(got, float) else str(got), 'decoded': float(want)})
+                return
     co = coeff_table(a['coeffs'], n, nc, d)
     cost = fv(a['cost'])[0]
     if isinstance(cost, float):
